@@ -168,7 +168,7 @@ def run(ctx, part):
             if mine():
                 hash_case(fn, name, n)
         if not quick:
-            for _ in range(ctx.n(0, 400) // ctx.nshards):
+            for _ in range(ctx.n(0, 4000) // ctx.nshards):
                 hash_case(fn, name, rng.choice([rng.randrange(0, 5000), rng.randrange(0, 200000)]))
 
     # -------------------------------------------------------------------------------------- HMAC
@@ -207,7 +207,7 @@ def run(ctx, part):
                 if mine():
                     hmac_case(kl, n)
         if not quick:
-            for _ in range(ctx.n(0, 6000) // ctx.nshards):
+            for _ in range(ctx.n(0, 40000) // ctx.nshards):
                 hmac_case(rng.randrange(0, 400), rng.randrange(0, 3000))
     else:
         not_built.append("md_hmac")
@@ -260,7 +260,7 @@ def run(ctx, part):
                 if mine():
                     kdf_case(fn, start, outl, inl)
         if not quick:
-            for _ in range(ctx.n(0, 6000) // ctx.nshards):
+            for _ in range(ctx.n(0, 40000) // ctx.nshards):
                 kdf_case(fn, start, rng.randrange(0, 2000), rng.randrange(0, 600))
 
     # ------------------------------------------------------------------------------------------ XMD
@@ -331,7 +331,7 @@ def run(ctx, part):
                 if mine():
                     xmd_case(fn, name, outl, rng.choice(msgl), d)
         if not quick:
-            for _ in range(ctx.n(0, 4000) // ctx.nshards):
+            for _ in range(ctx.n(0, 30000) // ctx.nshards):
                 xmd_case(fn, name, rng.randrange(0, 255 * dl + 40), rng.randrange(0, 500), rng.randrange(0, 300))
 
     # ---------------------------------------------------------------------------------- AES-CBC
